@@ -44,6 +44,7 @@ type Desc struct {
 // Timeout settings:
 //
 //	conn      connection-wide 150 ms, stall forever            -> timeout error by 150 ms + slack
+//	conn-long connection-wide 2.5 s (longer than the slack)     -> timeout error by 2.5 s + slack
 //	perop     per-op 150 ms over connection-wide 4 s            -> timeout error by 150 ms + slack (precedence by outcome)
 //	perop-long per-op 900 ms over connection-wide 100 ms, device resumes ~350 ms after the call started -> must succeed
 //	zero      per-op 0 (= maximum) over connection-wide 150 ms, device resumes after ~600 ms             -> must succeed
@@ -160,6 +161,11 @@ func runOnce(d Desc, sc *scen.Scenario) mon.Result {
 		defer yield.Install(nil)
 		defer func() { armed.Store(false) }()
 		yarm = armed
+	case "conn-long":
+		// a timeout that is LONGER than the slack: an operation that takes a multiple of its timeout
+		// is seen here (with 150 ms it hides inside the 1.5 s slack)
+		connWide = 2500 * time.Millisecond
+		T = 2500 * time.Millisecond
 	case "paced":
 		connWide = 4 * time.Second
 		T = 4 * time.Second
@@ -631,7 +637,7 @@ func gen(tier string, seed int64) []mon.Case {
 			add(Desc{Scenario: sc.Name, DryErr: e})
 			continue
 		}
-		if tier != "thorough" && !sc.Quick {
+		if sc.LossOnly || (tier != "thorough" && !sc.Quick) {
 			continue
 		}
 		scSegs := segs
@@ -688,6 +694,18 @@ func gen(tier string, seed int64) []mon.Case {
 				}
 				for _, pr := range pairs {
 					add(Desc{Scenario: sc.Name, K: pr[0], K2: pr[1], Setting: "paced", Seg: seg, Base: st.Base, S: st.S, Want: st.Want, CmdAt: st.CmdAt})
+				}
+			}
+			if si == 0 && sc.KStep <= 1 && st.S >= 4 && (tier == "thorough" || sc.Quick) {
+				ks := []int{st.S / 2}
+				if st.CmdAt > 2 {
+					ks = append(ks, st.CmdAt/2)
+				}
+				if tier == "thorough" {
+					ks = append(ks, st.S/4, st.S*3/4)
+				}
+				for _, k := range ks {
+					add(Desc{Scenario: sc.Name, K: k, Setting: "conn-long", Seg: seg, Base: st.Base, S: st.S, Want: st.Want, CmdAt: st.CmdAt})
 				}
 			}
 			if si == 0 && sc.IsOpen && sc.Driver == "generic" {
